@@ -511,6 +511,25 @@ func (node *TopNode) getParts(src *syntax.CallStm,
 	}
 	boundNode.expandForks(true)
 	var errs syntax.ErrorList
+	// If the source was empty for every matching fork then there is nothing
+	// to merge, whatever the indices of forks which do not match are.
+	var empty *ForkSourcePart
+	for _, fork := range boundNode.forks {
+		if fork.forkId.Matches(forkId) {
+			p, err := fork.forkId.matchPart(src)
+			if err != nil {
+				empty = nil
+				break
+			} else if _, ok := p.Id.(emptyFork); !ok {
+				empty = nil
+				break
+			}
+			empty = p
+		}
+	}
+	if empty != nil {
+		return []*ForkSourcePart{empty}, nil
+	}
 	parts := boundNode.forkIds.Table[src]
 	if len(parts) == 1 && parts[0].Id.IndexSource() != nil &&
 		(parts[0].Range == nil || parts[0].Range.Length() >= 0) {
